@@ -3,6 +3,19 @@ HOOK_COMMITS = []   # no source hooks needed so far
 FIX_COMMITS = ["5bfc12a fix: order_config word boundary (C08)", "943f14e fix: patch sort key (C08)", "1bcbbe1 fix: rewrite logic sends the new line ... (C01)", "28efb2a fix: file mode builds the patch from the complete diff (C16)", "c62ee59 fix: pool parent loop leaves only when the done queue is drained (C12)"]
 PENDING = {}
 CLAIMS = {
+    "C02": {
+        "technique": "TLA+ ACL coverage semantics (Acl.tla) + device model (Device.tla); slot-closed ACLs derived from the TLA+ rulebook catalogue and TLC-enumerated configurations replayed into _diff_and_patch with ACL; TLC trace judge of (a)(b)(c)",
+        "text": "For catalogue rulebooks x ACLs of one or two generators x (old_full, new) the real command paths are judged: every path covered level by level (directly or negated), every uncovered row of old "
+                "whose ancestors survive is intact on the spec's device after the patch, every slot covered only by cant_delete rules (explicit or the built-in interface default) still occupied.",
+        "note": "Domain: slot-closed ACLs; rulebooks whose logic emits the row or its negation (%rewrite and catch-all rulebooks excluded, stated in DESIGN.md). Known finding: moved %ordered block. "
+                "The generator path (_old_new_per_device) is exercised by C10.",
+    },
+    "C06": {
+        "technique": "TLA+ ACL coverage semantics with Lower/Upper bands (Acl.tla); seeded ACL structures and TLC-enumerated / random trees replayed into apply_acl (plain, repeated, strict) and merged ACLs; TLC trace judge",
+        "text": "Every real filter result must be an order-preserving subtree with Lower(t) <= result <= Upper(t) (equality wherever no two different rules/forms compete), idempotent, strict mode raising exactly "
+                "where an uncovered row is certainly visited / never on fully covered trees; the merge law is judged on A, B, A+B compiled from the joined text.",
+        "note": "ACL structures are driver-generated (seeded), not TLC-enumerated. Known finding: merge law under competition. No A-layer of the specificity metric (bands make it irrelevant to the verdict).",
+    },
     "C08": {
         "technique": "TLA+ rank semantics of ordering rulebooks (Orderer.tla) over a TLA+ ordering catalogue (OrderCatalog.tla, domain assumption model-checked) + TLC-enumerated configurations replayed into make_patch / order_config; TLC trace judge incl. metamorphic independence",
         "text": "For every catalogue (patching, ordering) rulebook pair and vendor profile, the real sorted PatchTree of all/sampled (old,new) pairs is judged at every depth: ranked siblings in rank order "
